@@ -32,6 +32,7 @@ def run(ctx):
     check_release(ctx, prog, tags)
     check_numeq(ctx, prog)
     check_streq(ctx, prog)
+    check_numeq_model(ctx, prog)
     check_strrep(ctx, prog)
     check_container_handles(ctx, prog)
     # the element lifetime rules of Array, on the instantiations Var's containers use (Array<Var>, Array<char>, the Dic storage):
@@ -989,3 +990,56 @@ def check_container_handles(ctx, prog):
 def scansim_on_this(m):
     import scansim
     return scansim._on_this(m)
+
+
+def check_numeq_model(ctx, prog):
+    """C04.numeq (model): two Vars holding numbers compare equal exactly when the numbers are equal, whichever numeric
+    representation (INT, NUMBER, FLOAT) either side uses, and in both directions.  operator==(const Var&) is interpreted
+    (scansim) with both operands modelled - tag plus the union member of that tag - for all pairs over the values 0, 2, -7, 2.5,
+    4.0 in every representation that can hold them; the conversion and the scalar comparison it delegates to are interpreted on
+    the operands they are called on."""
+    import scansim
+    fs = [g_ for g_ in prog.fn('asl::Var::operator==', '(const asl::Var &)const') if g_.get('body')]
+    if not fs:
+        return
+    f = fs[0]
+    en = dict((c['n'], c['v']) for c in prog.enums['asl::Var::Type']['consts'])
+    if not all(k in en for k in ('INT', 'NUMBER', 'FLOAT')):
+        return
+    ctx.analysed(f)
+    role = 'operator==(const Var&):numeric equality over all representations'
+    vals = [0, 2, -7, 2.5, 4.0, 4]
+    reps = []
+    for v in vals:
+        if isinstance(v, int):
+            reps.append(('INT', {'_i': v}, v))
+        reps.append(('NUMBER', {'_d': float(v)}, v))
+        reps.append(('FLOAT', {'_d': float(v)}, v))
+    bad = und = None
+    runs = 0
+    pid = f['params'][0]['id']
+    for t1, m1, v1 in reps:
+        for t2, m2, v2 in reps:
+            mems = dict(m1)
+            mems['_type'] = en[t1]
+            rec = dict(m2)
+            rec['_type'] = en[t2]
+            r = scansim.Run(prog, f, {}, mems=mems, methods={'*': 'interp'}, objects=True)
+            r.recs['other'] = rec
+            r.vars[pid] = ('R', 'other')
+            runs += 1
+            try:
+                got = r.run()
+            except (scansim.Unsupported, scansim.OOB, TypeError, KeyError) as u:
+                und = '%s %s == %s %s: %s' % (t1, v1, t2, v2, u)
+                break
+            if bool(got) != (float(v1) == float(v2)):
+                bad = 'a Var holding %s as %s compares %s to a Var holding %s as %s%s' % (v1, t1, 'equal' if got else 'unequal', v2, t2, ' (the comparison in the other direction is decided separately: equality is not symmetric)' if float(v1) == float(v2) else '')
+                break
+        if bad or und:
+            break
+    ctx.evaluations += runs
+    if und:
+        ctx.undecided('C04.numeq', f['pq'], role, fwhere(f), 'outside the interpreted fragment: %s' % und)
+    else:
+        ctx.check(bad is None, 'C04.numeq', f['pq'], role, fwhere(f), 'interpreted for %d (value, representation) pairs' % runs, 'Var::operator==: %s' % bad)
